@@ -393,8 +393,12 @@ def run(repo: Repo, rep: Report, tier: str) -> None:
     for k in keyexprs:
         leaves = du.leaves(k)
         by_scope = any(l.kind == "attr" and l.text == "self.current_scope" for l in leaves)
-        rep.check(not by_scope, "C14-R8", "write-once key does not depend on the analysing scope",
-                  f"key {norm(k)} derives from {sorted(str(l) for l in leaves if l.kind != 'const')}" + ("; a loop body or a function called twice writes the same outer cell from different scopes without a collision" if by_scope else ""),
+        # a scope-qualified key is harmless once the lowering itself refuses a cell that was written before (C14-R15): every re-analysis that slips past the
+        # analyzer's table is lowered once per expansion and meets that test
+        backstop, _ = _lowering_refuses_second_write(repo) if by_scope else (False, None)
+        rep.check(not by_scope or backstop, "C14-R8", "write-once key does not depend on the analysing scope",
+                  f"key {norm(k)} derives from {sorted(str(l) for l in leaves if l.kind != 'const')}" + ("; the lowering refuses the second write of a cell (C14-R15)" if by_scope and backstop else
+                  "; a loop body or a function called twice writes the same outer cell from different scopes without a collision" if by_scope else ""),
                   iet.loc(k))
 
     # ---------------- R9 ---------------------------------------------------------------
@@ -561,26 +565,8 @@ def run(repo: Repo, rep: Report, tier: str) -> None:
     rep.rule("C14-R15", "a second write to one cell is refused wherever it comes from: the analyzer meets each write() once, a loop body or a function called twice lowers it again for "
              "the same cell — the lowering of a write tests the cell's id against the ids already written (error when present) and records it, before either kind of write "
              "is built")
-    lw15 = repo.func("MemoryLowerer.lower_write_expr")
     from .util import canon as _canon15, cguards as _cg15
-    c15 = _canon15(lw15)
-    adds15 = [c for c in calls_in(lw15.node, "add") if c.args and "memory_refs[" in c15.text(c.args[0])]
-    errs15 = []
-    for c in calls_in(lw15.node, "_error"):
-        gs = _cg15(lw15, c)
-        if any(pol and re.fullmatch(r"self\.parent\.memory_refs\[.+\] in self\.\w+", g) for g, pol in gs):
-            errs15.append(c)
-    rets15 = [r for r in walk_local(lw15.node) if isinstance(r, ast.Return) and r.value is not None and "_write(" in norm(r.value)]
-    if not rets15:
-        raise AnalysisError("C14-R15: lower_write_expr has no dispatching return")
-    g15 = CFG(lw15.node)
-    pm15 = parents_map(lw15.node)
-    def _st15(n):
-        while not isinstance(n, ast.stmt):
-            n = pm15[n]
-        return n
-    same_table = bool(adds15) and bool(errs15) and any(norm(a.func.value) in " ".join(g for g, _ in _cg15(lw15, e)) for a in adds15 for e in errs15)
-    dom15 = same_table and all(g15.dominates(_st15(adds15[0]), r) for r in rets15)
+    dom15, lw15 = _lowering_refuses_second_write(repo)
     rep.check(bool(dom15), "C14-R15", "lower_write_expr: the written-cell table is tested and extended before a write is built",
               "membership error + record dominate both dispatches" if dom15 else
               "no test of the cell id against the cells already written: `for i in 0..2 { m.write(i); }` and a writing function called twice are accepted", lw15.loc())
@@ -603,3 +589,28 @@ def run(repo: Repo, rep: Report, tier: str) -> None:
         rep.check(ok16, "C14-R16", f"_infer_bundle_select_type: accepting return #{n16} is a member or a run-time bundle", ("member" if member else "dynamic bundle") if ok16 else
                   f"accepted under {[('' if p else 'not ') + g[:70] for g, p in gs]}", bs16.loc(r))
     rep.floor("C14-R16", "accepting returns of the bundle selection", n16, 2)
+
+
+def _lowering_refuses_second_write(repo: Repo):
+    """(holds, function): does lower_write_expr test the cell id against the ids already written and record it before either kind of write is built?"""
+    lw15 = repo.func("MemoryLowerer.lower_write_expr")
+    from .util import canon as _canon15, cguards as _cg15
+    c15 = _canon15(lw15)
+    adds15 = [c for c in calls_in(lw15.node, "add") if c.args and "memory_refs[" in c15.text(c.args[0])]
+    errs15 = []
+    for c in calls_in(lw15.node, "_error"):
+        gs = _cg15(lw15, c)
+        if any(pol and re.fullmatch(r"self\.parent\.memory_refs\[.+\] in self\.\w+", g) for g, pol in gs):
+            errs15.append(c)
+    rets15 = [r for r in walk_local(lw15.node) if isinstance(r, ast.Return) and r.value is not None and "_write(" in norm(r.value)]
+    if not rets15:
+        raise AnalysisError("C14-R15: lower_write_expr has no dispatching return")
+    g15 = CFG(lw15.node)
+    pm15 = parents_map(lw15.node)
+    def _st15(n):
+        while not isinstance(n, ast.stmt):
+            n = pm15[n]
+        return n
+    same_table = bool(adds15) and bool(errs15) and any(norm(a.func.value) in " ".join(g for g, _ in _cg15(lw15, e)) for a in adds15 for e in errs15)
+    dom15 = same_table and all(g15.dominates(_st15(adds15[0]), r) for r in rets15)
+    return bool(dom15), lw15
